@@ -87,4 +87,127 @@ theorem c14_named_switch_order_free {cfg : RichCfg} {secs : List RSection} (o1 o
   rw [Props.C07.c07_named_switch_keeps_name h1 ss hs x hx hxn i hxi hi huniq hused,
     Props.C07.c07_named_switch_keeps_name h2 ss hs x hx hxn i hxi hi huniq hused]
 
+/-! ### whole location rebuild, saves that ADD locations -/
+
+theorem allocRun_length {cfg : AllocCfg} : ∀ (rs : List Req) (st : AllocSt) {ress : List Res} {st' : AllocSt},
+    allocRun cfg st rs = .ok (ress, st') → ress.length = rs.length := by
+  intro rs
+  induction rs with
+  | nil => intro st ress st' h; simp [allocRun] at h; simp [h.1.symm]
+  | cons r rs ih =>
+    intro st ress st' h
+    simp only [allocRun] at h
+    cases hs : allocStep cfg st r with
+    | error e => simp [hs] at h
+    | ok p =>
+      obtain ⟨res, st1⟩ := p
+      simp only [hs] at h
+      cases hr : allocRun cfg st1 rs with
+      | error e => simp [hr] at h
+      | ok q =>
+        obtain ⟨ress1, st2⟩ := q
+        simp only [hr, Except.ok.injEq, Prod.mk.injEq] at h
+        rw [← h.1]
+        simp [ih st1 hr]
+
+theorem carriedFirst_length (reqs : List Req) : (carriedFirst reqs).length = reqs.length := by
+  induction reqs with
+  | nil => rfl
+  | cons r rs ih =>
+    cases r <;> simp only [carriedFirst, carriedIdx, freshCount, List.length_append, List.length_map, List.length_replicate,
+      List.length_cons] at ih ⊢ <;> omega
+
+/-- the carried-first placement order of a batch and its request list (as in `rebuildMrgn`) -/
+def placementOf (b : List RLoc) : List RLoc := b.filter (·.idx.isSome) ++ b.filter (·.idx.isNone)
+def reqsOf (b : List RLoc) : List Req := (placementOf b).map fun l => match l.idx with | some i => Req.carry i | none => Req.fresh
+
+def placedOf (placement : List RLoc) (ress : List Res) : List (RLoc × Nat) :=
+  (placement.zip ress).filterMap fun (l, r) => match r with
+    | .placed s => some ({ l with idx := some s }, l.uid)
+    | .skipped => none
+
+/-- the part of `rebuildMrgn` after the batch has been collected and ordered -/
+def mrgnCore (cfg : RichCfg) (table : List RLoc) (b : List RLoc) : R (List RLoc × List (Nat × Nat)) :=
+  match allocate cfg.mrgnCfg (table.filterMap (·.idx)) (reqsOf b) with
+  | .error e => .error e
+  | .ok (ress, _) =>
+    .ok (table ++ (placedOf (placementOf b) ress).map (·.1), (placedOf (placementOf b) ress).filterMap fun (l, uid) => l.idx.map fun i => (uid, i))
+
+theorem rebuildMrgn_eq_core (cfg : RichCfg) (secs : List RSection) (table : List RLoc) (o : Option (List Nat))
+    (hsec : secs.filter (isSectionNamed nMRGN) = [.mrgn table]) (hany : table.any (·.idx.isNone) = false) :
+    rebuildMrgn cfg secs o =
+      mrgnCore cfg table (allocOrder o (dedupBy RLoc.same ((secs.filter (fun s => !isSectionNamed nMRGN s)).flatMap (sectionLocs cfg)))) := by
+  unfold rebuildMrgn
+  simp only [hsec, hany, Bool.false_eq_true, ↓reduceIte]
+  rfl
+
+/-- with one result per request, the slots of the appended entries are exactly the slots handed out -/
+theorem placed_idx_eq (placement : List RLoc) (ress : List Res) (h : ress.length = placement.length) :
+    ((placedOf placement ress).map (·.1)).filterMap (·.idx) = placedSlots ress := by
+  unfold placedOf
+  induction placement generalizing ress with
+  | nil => cases ress with
+    | nil => rfl
+    | cons _ _ => simp at h
+  | cons l ls ih =>
+    cases ress with
+    | nil => simp at h
+    | cons r rs =>
+      have h' : rs.length = ls.length := by simpa using h
+      cases r with
+      | placed s => simp only [List.zip_cons_cons, List.filterMap_cons, List.map_cons, placedSlots]; rw [ih rs h']
+      | skipped => simp only [List.zip_cons_cons, List.filterMap_cons, placedSlots]; exact ih rs h'
+
+theorem mrgnCore_perm (cfg : RichCfg) (table b1 b2 : List RLoc) (hb : b1.Perm b2) :
+    ((∃ e, mrgnCore cfg table b1 = .error e) ↔ (∃ e, mrgnCore cfg table b2 = .error e)) ∧
+    ∀ l1 i1 l2 i2, mrgnCore cfg table b1 = .ok (l1, i1) → mrgnCore cfg table b2 = .ok (l2, i2) →
+      l1.take table.length = table ∧ l2.take table.length = table ∧
+      (l1.filterMap (·.idx)).Perm (l2.filterMap (·.idx)) := by
+  have hR : (reqsOf b1).Perm (reqsOf b2) := ((hb.filter _).append (hb.filter _)).map _
+  have hA := allocate_perm cfg.mrgnCfg (table.filterMap (·.idx)) hR
+  unfold mrgnCore
+  cases ha1 : allocate cfg.mrgnCfg (table.filterMap (·.idx)) (reqsOf b1) with
+  | error e1 =>
+    obtain ⟨e2, h2⟩ := hA.1.mp ⟨e1, ha1⟩
+    simp [h2]
+  | ok p1 =>
+    obtain ⟨r1, s1⟩ := p1
+    cases ha2 : allocate cfg.mrgnCfg (table.filterMap (·.idx)) (reqsOf b2) with
+    | error e2 =>
+      obtain ⟨e1, h1⟩ := hA.1.mpr ⟨e2, ha2⟩
+      rw [ha1] at h1; cases h1
+    | ok p2 =>
+      obtain ⟨r2, s2⟩ := p2
+      refine ⟨by simp, ?_⟩
+      intro l1 i1 l2 i2 h1 h2
+      simp only [Except.ok.injEq, Prod.mk.injEq] at h1 h2
+      obtain ⟨rfl, _⟩ := h1
+      obtain ⟨rfl, _⟩ := h2
+      have hp := (hA.2 r1 s1 r2 s2 ha1 ha2).2.2
+      have hl1 : r1.length = (placementOf b1).length := by
+        have := allocRun_length _ _ ha1
+        rw [carriedFirst_length] at this; simpa [reqsOf] using this
+      have hl2 : r2.length = (placementOf b2).length := by
+        have := allocRun_length _ _ ha2
+        rw [carriedFirst_length] at this; simpa [reqsOf] using this
+      refine ⟨by simp, by simp, ?_⟩
+      rw [List.filterMap_append, List.filterMap_append, placed_idx_eq _ r1 hl1, placed_idx_eq _ r2 hl2]
+      exact (List.Perm.refl _).append hp
+
+/-- **C14 for saves that add locations**: take any two iteration orders of the set of locations the sections
+refer to (two permutations of one batch).  Either both rebuilds fail or both succeed; when they succeed, both new
+tables begin with the stored table, unchanged, and occupy the SAME set of slots — the two saves differ at most in
+which new location received which of the new slots -/
+theorem c14_location_rebuild_order_independent (cfg : RichCfg) (secs : List RSection) (table : List RLoc)
+    (hsec : secs.filter (isSectionNamed nMRGN) = [.mrgn table]) (hany : table.any (·.idx.isNone) = false)
+    (o1 o2 : Option (List Nat))
+    (hperm : (allocOrder o1 (dedupBy RLoc.same ((secs.filter (fun s => !isSectionNamed nMRGN s)).flatMap (sectionLocs cfg)))).Perm
+             (allocOrder o2 (dedupBy RLoc.same ((secs.filter (fun s => !isSectionNamed nMRGN s)).flatMap (sectionLocs cfg))))) :
+    ((∃ e, rebuildMrgn cfg secs o1 = .error e) ↔ (∃ e, rebuildMrgn cfg secs o2 = .error e)) ∧
+    ∀ l1 i1 l2 i2, rebuildMrgn cfg secs o1 = .ok (l1, i1) → rebuildMrgn cfg secs o2 = .ok (l2, i2) →
+      l1.take table.length = table ∧ l2.take table.length = table ∧
+      (l1.filterMap (·.idx)).Perm (l2.filterMap (·.idx)) := by
+  rw [rebuildMrgn_eq_core cfg secs table o1 hsec hany, rebuildMrgn_eq_core cfg secs table o2 hsec hany]
+  exact mrgnCore_perm cfg table _ _ hperm
+
 end Richchk.Props.C14
